@@ -92,6 +92,16 @@ CLAIMED.update({
    technique="Coq proof (pre-order labelling of nested results, counting lemmas) + structural differential check on real reports + vm_compute correspondence",
    ref="4 (C06)"),
 })
+CLAIMED.update({
+ "C08": dict(
+   text="Tie A (model regenerated every run): translator/t1.py turns the clone-before-write code of Validator.run / RuleExpandRunner.run, mix_in_ontology and the constructor guards into a PyMini program (coq/Gen/T1.v); "
+        "Coq decides by evaluation over the finite domain (1280 option/container valuations x 13 fault points, lifted with forallb_forall) that no Write event ever hits the caller's ontology object and none hits the caller's data object unless inplace. "
+        "The callee summaries and the translation are validated by comparing the recorded Clone/Write/Reg/Raised trace of the real code with the program's trace; the property itself is replayed on the real code with quad-level snapshots over "
+        "{Graph, Dataset, ConjunctiveGraph} x ontology kinds x inference modes x advanced x iterate_rules x {validate, shacl_rules} x injected failures.",
+   note="Trusted: Coq kernel + vm_compute; the translator (fail-closed) and PyMini semantics with its ~10 callee summaries; that rdflib/owlrl/rules write only into the graph object they are handed is checked by the snapshot table, not proved.",
+   technique="translation to a deep embedding + Coq evaluation over a finite domain (proof by reflection) + trace correspondence + fault enumeration on /repo",
+   ref="4 (C08)"),
+})
 NOT_YET = {}
 ALL = ["C%02d" % i for i in range(1, 21)]
 REASONS = {}
